@@ -88,7 +88,9 @@ def workloads(root):
     W['files'] = (0, ['wipe', 'mkdir ' + E('sp'), 'mkfile %s %s' % (E('sp/inc.conf'), E(b'i = 42\ninclude("inc2.conf")\n')),
                       'mkfile %s %s' % (E('sp/inc2.conf'), E(b's = deep\n')), 'mkfile %s %s' % (E('top.conf'), E(b'il += {8}\ninclude("inc.conf")\n')),
                       'passwd %s %s' % (E('me'), E(r + '/h')), 'me ' + E('me'),
+                      'mkdir ' + E('sp2'), 'mkfile %s %s' % (E('sp2/inc.conf'), E(b'i = 43\n')),      # the same name in a later search directory
                       'init A M1 0', 'tilde ' + E('~/x'), 'tilde ' + E('~me/y'), 'tilde ' + E('plain'), 'addpath A ' + E(r + '/sp'), 'addpath A ' + E('~/q'),
+                      'addpath A ' + E(r + '/sp2'),
                       'searchpath A ' + E('inc.conf'), 'searchpath A ' + E('nope.conf'), 'parse A ' + E(r + '/top.conf'), 'parse_buf A ' + E(b'include("inc.conf")'),
                       'parse A ' + E('inc2.conf'), 'parse A ' + E('missing.conf')])
     W['files-nopath'] = (0, ['wipe', 'mkfile %s %s' % (E('a.conf'), E(b'i = 42\ninclude("b.conf")\n')), 'mkfile %s %s' % (E('b.conf'), E(b's = deep\ni = x\n')),
